@@ -66,6 +66,9 @@ int main(void)
     ABTI_ktable *t = (ABTI_ktable *)KT.val;
     VR_ASSERT(t == &BIG.kt && big_used && t->size == KTSIZE && BIG.h.is_from_mempool == ABT_FALSE && BIG.h.p_next == NULL, "the table lives in the malloc'ed block");
     VR_ASSERT(eb_used[0] && t->p_used_mem == (void *)&EB0 && EB0.h.p_next == &BIG.h, "the first element lives in a block of its own, chained for release");
+    { size_t off = __CPROVER_POINTER_OFFSET(t->p_extra_mem), sz = t->extra_mem_size;
+      VR_ASSERT(sz == 0 || (__CPROVER_same_object(t->p_extra_mem, &EB0) && off <= 128 && sz <= 128 - off) || (__CPROVER_same_object(t->p_extra_mem, &BIG) && off <= 192 && sz <= 192 - off),
+                "the spare room the next element is carved from lies inside a block that was handed out"); }
     VR_ASSERT(ABTI_ktable_get(&KT, &K1) == NULL, "a key that was never set reads NULL, colliding or not");
     r = ABTI_ktable_set(&G, NULL, &KT, &K1, v1); VR_ASSERT(r == ABT_SUCCESS, "second set succeeds");
     VR_ASSERT(ABTI_ktable_get(&KT, &K0) == v0 && ABTI_ktable_get(&KT, &K1) == v1, "map agrees for both keys: values never leak between keys or slots");
